@@ -56,8 +56,9 @@ theorem writeMap_accepting (c : Chan) (n beg : Nat) (c' : Chan) (h : writeMap c 
 theorem cv_wmap_fail (s : Sys) (n : Nat) (h : ∀ b, (step s (.wmap n)).2 ≠ .wok b) : (step s (.wmap n)).1 = s :=
   wmap_not_ok s n h
 
-theorem cv_wmap_ok {s : Sys} (h : Ok s) (n b : Nat) (hp : s.pending = false) (ho : (step s (.wmap n)).2 = .wok b) :
-    Ok (step s (.wmap n)).1 ∧ cv (step s (.wmap n)).1 = { cv s with pending := true, wlen := n } := by
+theorem cv_wmap_ok {s : Sys} (h : Ok s) (n b : Nat) (hp : (cv s).pending = false) (ho : (step s (.wmap n)).2 = .wok b) :
+    Ok (step s (.wmap n)).1 ∧ cv (step s (.wmap n)).1 = { pending := true, wlen := n, total := (cv s).total, nrd := (cv s).nrd, m0 := (cv s).m0, m1 := (cv s).m1, i0 := (cv s).i0, i1 := (cv s).i1, l0 := (cv s).l0, l1 := (cv s).l1, acc := (cv s).acc } := by
+  replace hp : s.pending = false := hp
   have hwf : (Op.wmap n).wf s = true := by simp [Op.wf, hp]
   refine ⟨h.step _ hwf, ?_⟩
   obtain ⟨cap, g, hr⟩ := h
@@ -79,9 +80,10 @@ theorem cv_wmap_ok {s : Sys} (h : Ok s) (n b : Nat) (hp : s.pending = false) (ho
   unfold cv
   rw [a1, a2, a3, a4, a5, r 0, r 1, hacc]
 
-theorem cv_wcommit {s : Sys} (h : Ok s) (hp : s.pending = true) :
+theorem cv_wcommit {s : Sys} (h : Ok s) (hp : (cv s).pending = true) :
     Ok (step s .wcommit).1 ∧
-    cv (step s .wcommit).1 = { cv s with pending := false, total := s.total + (if s.c.accepting then s.wlen else 0) } := by
+    cv (step s .wcommit).1 = { pending := false, wlen := (cv s).wlen, total := (cv s).total + (if (cv s).acc then (cv s).wlen else 0), nrd := (cv s).nrd, m0 := (cv s).m0, m1 := (cv s).m1, i0 := (cv s).i0, i1 := (cv s).i1, l0 := (cv s).l0, l1 := (cv s).l1, acc := (cv s).acc } := by
+  replace hp : s.pending = true := hp
   have hwf : Op.wcommit.wf s = true := by simp [Op.wf, hp]
   refine ⟨h.step _ hwf, ?_⟩
   obtain ⟨cap, g, hr⟩ := h
@@ -101,8 +103,9 @@ theorem cv_wcommit {s : Sys} (h : Ok s) (hp : s.pending = true) :
   unfold cv
   rw [a1, a3, a4, a5, r 0, r 1, hw, hacc]
 
-theorem cv_wabort {s : Sys} (h : Ok s) (hp : s.pending = true) :
-    Ok (step s .wabort).1 ∧ cv (step s .wabort).1 = { cv s with pending := false } := by
+theorem cv_wabort {s : Sys} (h : Ok s) (hp : (cv s).pending = true) :
+    Ok (step s .wabort).1 ∧ cv (step s .wabort).1 = { pending := false, wlen := (cv s).wlen, total := (cv s).total, nrd := (cv s).nrd, m0 := (cv s).m0, m1 := (cv s).m1, i0 := (cv s).i0, i1 := (cv s).i1, l0 := (cv s).l0, l1 := (cv s).l1, acc := (cv s).acc } := by
+  replace hp : s.pending = true := hp
   have hwf : Op.wabort.wf s = true := by simp [Op.wf, hp]
   refine ⟨h.step _ hwf, ?_⟩
   obtain ⟨cap, g, hr⟩ := h
@@ -121,7 +124,7 @@ theorem cv_wabort {s : Sys} (h : Ok s) (hp : s.pending = true) :
   rfl
 
 theorem cv_accept {s : Sys} (h : Ok s) (b : Bool) :
-    Ok (step s (.accept b)).1 ∧ cv (step s (.accept b)).1 = { cv s with acc := b } :=
+    Ok (step s (.accept b)).1 ∧ cv (step s (.accept b)).1 = { pending := (cv s).pending, wlen := (cv s).wlen, total := (cv s).total, nrd := (cv s).nrd, m0 := (cv s).m0, m1 := (cv s).m1, i0 := (cv s).i0, i1 := (cv s).i1, l0 := (cv s).l0, l1 := (cv s).l1, acc := b } :=
   ⟨h.step _ rfl, rfl⟩
 
 /-- length of the region a read returned -/
@@ -154,19 +157,23 @@ theorem view_rmap {s : Sys} (h : Ok s) (i : Nat) (hi : i < s.rds.length) (hm : (
   · exact b11 j hne hj hmj
   · rw [nth_rds_beyond s j (by omega)] at hmj; cases hmj
 
-theorem cv_rmap0 {s : Sys} (h : Ok s) (hn : 1 ≤ s.rds.length) (hm : (nth s.rds 0).mapped = false) :
+theorem cv_rmap0 {s : Sys} (h : Ok s) (hn : 1 ≤ (cv s).nrd) (hm : (cv s).m0 = false) :
     Ok (step s (.rmap 0)).1 ∧
-    (sliceLen (step s (.rmap 0)).2 = 0 → nth s.idx 0 = s.total) ∧ nth s.idx 0 + sliceLen (step s (.rmap 0)).2 ≤ s.total ∧
-    cv (step s (.rmap 0)).1 = { cv s with m0 := decide (0 < sliceLen (step s (.rmap 0)).2), l0 := sliceLen (step s (.rmap 0)).2 } := by
+    (sliceLen (step s (.rmap 0)).2 = 0 → (cv s).i0 = (cv s).total) ∧ (cv s).i0 + sliceLen (step s (.rmap 0)).2 ≤ (cv s).total ∧
+    cv (step s (.rmap 0)).1 = { pending := (cv s).pending, wlen := (cv s).wlen, total := (cv s).total, nrd := (cv s).nrd, m0 := decide (0 < sliceLen (step s (.rmap 0)).2), m1 := (cv s).m1, i0 := (cv s).i0, i1 := (cv s).i1, l0 := sliceLen (step s (.rmap 0)).2, l1 := (cv s).l1, acc := (cv s).acc } := by
+  replace hn : 1 ≤ s.rds.length := hn
+  replace hm : (nth s.rds 0).mapped = false := hm
   obtain ⟨a0, a1, a2, a3, a4, a5, a6, a7, a8, a9, a10, a11⟩ := view_rmap h 0 (by omega) hm
   refine ⟨a0, a1, a2, ?_⟩
   unfold cv
   rw [a3, a4, a5, a6, a7, a8, a9, a10, (a11 1 (by omega)).1, (a11 1 (by omega)).2]
 
-theorem cv_rmap1 {s : Sys} (h : Ok s) (hn : 2 ≤ s.rds.length) (hm : (nth s.rds 1).mapped = false) :
+theorem cv_rmap1 {s : Sys} (h : Ok s) (hn : 2 ≤ (cv s).nrd) (hm : (cv s).m1 = false) :
     Ok (step s (.rmap 1)).1 ∧
-    (sliceLen (step s (.rmap 1)).2 = 0 → nth s.idx 1 = s.total) ∧ nth s.idx 1 + sliceLen (step s (.rmap 1)).2 ≤ s.total ∧
-    cv (step s (.rmap 1)).1 = { cv s with m1 := decide (0 < sliceLen (step s (.rmap 1)).2), l1 := sliceLen (step s (.rmap 1)).2 } := by
+    (sliceLen (step s (.rmap 1)).2 = 0 → (cv s).i1 = (cv s).total) ∧ (cv s).i1 + sliceLen (step s (.rmap 1)).2 ≤ (cv s).total ∧
+    cv (step s (.rmap 1)).1 = { pending := (cv s).pending, wlen := (cv s).wlen, total := (cv s).total, nrd := (cv s).nrd, m0 := (cv s).m0, m1 := decide (0 < sliceLen (step s (.rmap 1)).2), i0 := (cv s).i0, i1 := (cv s).i1, l0 := (cv s).l0, l1 := sliceLen (step s (.rmap 1)).2, acc := (cv s).acc } := by
+  replace hn : 2 ≤ s.rds.length := hn
+  replace hm : (nth s.rds 1).mapped = false := hm
   obtain ⟨a0, a1, a2, a3, a4, a5, a6, a7, a8, a9, a10, a11⟩ := view_rmap h 1 (by omega) hm
   refine ⟨a0, a1, a2, ?_⟩
   unfold cv
@@ -193,25 +200,28 @@ theorem view_runmap {s : Sys} (h : Ok s) (i k : Nat) (hi : i < s.rds.length) :
   · exact b9 j hne hj hmj
   · rw [nth_rds_beyond s j (by omega)] at hmj; cases hmj
 
-theorem cv_runmap0 {s : Sys} (h : Ok s) (k : Nat) (hn : 1 ≤ s.rds.length) :
+theorem cv_runmap0 {s : Sys} (h : Ok s) (k : Nat) (hn : 1 ≤ (cv s).nrd) :
     Ok (step s (.runmap 0 k)).1 ∧
-    cv (step s (.runmap 0 k)).1 = { cv s with m0 := false, i0 := nth s.idx 0 + min (regionLen s 0) k, l0 := 0 } := by
+    cv (step s (.runmap 0 k)).1 = { pending := (cv s).pending, wlen := (cv s).wlen, total := (cv s).total, nrd := (cv s).nrd, m0 := false, m1 := (cv s).m1, i0 := (cv s).i0 + min (cv s).l0 k, i1 := (cv s).i1, l0 := 0, l1 := (cv s).l1, acc := (cv s).acc } := by
+  replace hn : 1 ≤ s.rds.length := hn
   obtain ⟨a0, a1, a2, a3, a4, a5, a6, a7, a8, a9⟩ := view_runmap h 0 k (by omega)
   refine ⟨a0, ?_⟩
   unfold cv
   rw [a1, a2, a3, a4, a5, a6, a7, a8, (a9 1 (by omega)).1, (a9 1 (by omega)).2.1, (a9 1 (by omega)).2.2]
 
-theorem cv_runmap1 {s : Sys} (h : Ok s) (k : Nat) (hn : 2 ≤ s.rds.length) :
+theorem cv_runmap1 {s : Sys} (h : Ok s) (k : Nat) (hn : 2 ≤ (cv s).nrd) :
     Ok (step s (.runmap 1 k)).1 ∧
-    cv (step s (.runmap 1 k)).1 = { cv s with m1 := false, i1 := nth s.idx 1 + min (regionLen s 1) k, l1 := 0 } := by
+    cv (step s (.runmap 1 k)).1 = { pending := (cv s).pending, wlen := (cv s).wlen, total := (cv s).total, nrd := (cv s).nrd, m0 := (cv s).m0, m1 := false, i0 := (cv s).i0, i1 := (cv s).i1 + min (cv s).l1 k, l0 := (cv s).l0, l1 := 0, acc := (cv s).acc } := by
+  replace hn : 2 ≤ s.rds.length := hn
   obtain ⟨a0, a1, a2, a3, a4, a5, a6, a7, a8, a9⟩ := view_runmap h 1 k (by omega)
   refine ⟨a0, ?_⟩
   unfold cv
   rw [a1, a2, a3, a4, a5, a6, a7, a8, (a9 0 (by omega)).1, (a9 0 (by omega)).2.1, (a9 0 (by omega)).2.2]
 
 /-- the second reader registers (the first stays as it is) -/
-theorem cv_join1 {s : Sys} (h : Ok s) (hn : s.rds.length = 1) :
-    Ok (step s .join).1 ∧ ∃ m i l, cv (step s .join).1 = { cv s with nrd := 2, m1 := m, i1 := i, l1 := l } := by
+theorem cv_join1 {s : Sys} (h : Ok s) (hn : (cv s).nrd = 1) :
+    Ok (step s .join).1 ∧ ∃ m i l, cv (step s .join).1 = { pending := (cv s).pending, wlen := (cv s).wlen, total := (cv s).total, nrd := 2, m0 := (cv s).m0, m1 := m, i0 := (cv s).i0, i1 := i, l0 := (cv s).l0, l1 := l, acc := (cv s).acc } := by
+  replace hn : s.rds.length = 1 := hn
   have hwf : Op.join.wf s = true := by simp [Op.wf, hn]
   refine ⟨h.step _ hwf, ?_⟩
   obtain ⟨cap, g, hr⟩ := h
